@@ -8,8 +8,14 @@ import Rg.Proofs.Preds
 Theorems about the model of the predicates' own logic (`PR.*`) against the documented meaning
 (`SpecC02.*`), for every type shape, expression shape, object, node and version; obligations on the
 tables regenerated from the code on every run (`Gen.FilterTables`).
-`fixed = false` is the code as it stands, `fixed = true` the code after
-`fixes/ofkind-untyped.diff`, `fixes/isglobal-nil-object.diff`, `fixes/alias-transparent-type-predicates.diff`.
+Every repair is a flag of the model (`PR.Variant`): `base` = `fixes/ofkind-untyped.diff`,
+`fixes/isglobal-nil-object.diff`, `fixes/alias-transparent-type-predicates.diff`; `lists` =
+`fixes/c02-list-captures.diff`; `stmt` = `fixes/c02-typeof-exprstmt.diff`; `cslice` =
+`fixes/c02-constslice-literal-type.diff`; `pure` = `fixes/c02-pure-whitelist.diff`; `flit` =
+`fixes/c02-variadic-funclit.diff`.  The full-strength theorems are about the flags set (`Variant.repaired`, what the
+correspondence compares the code with); the `_partial` ones and the kernel-checked counterexamples are about
+the flags cleared (the code as it stood).  `pred_eq_spec` assembles everything over `PR.evalPred`, the
+dispatch of `newFilter` the driver runs.
 -/
 namespace C02
 open PR
@@ -162,21 +168,26 @@ theorem hasPointers_eq_spec_partial (t : Ty) (ha : noAlias t = true) :
 
 /-! ## Pure, ConstSlice -/
 
-/-- `Pure` never accepts an expression that has a side effect … -/
-theorem pure_sound (e : Ex) (h : isPure e = true) : SpecC02.pure e = true := isPure_sound e h
+/-- `Pure` never accepts an expression that has a side effect (either whitelist) … -/
+theorem pure_sound (ext : Bool) (e : Ex) (h : isPure ext e = true) : SpecC02.pure e = true := isPure_sound ext e h
 
-/-- … and accepts every side-effect-free expression built from the node kinds on its whitelist
+/-- … and with the extended whitelist (after the repair) it is exactly the documented meaning: it accepts an
+expression iff it contains no call other than a conversion and no channel receive — for every
+expression shape, by induction on the expression. -/
+theorem pure_eq_spec (e : Ex) : isPure true e = SpecC02.pure e := isPure_ext_eq e
+
+/-- The code as it stood accepts every side-effect-free expression built from the node kinds on its whitelist
 (`plain`: no key-value element, slice expression, type assertion or type literal operand). -/
-theorem pure_eq_spec_partial (e : Ex) (hp : plain e = true) : isPure e = SpecC02.pure e := by
+theorem pure_eq_spec_partial (e : Ex) (hp : plain e = true) : isPure false e = SpecC02.pure e := by
   cases h : SpecC02.pure e with
   | true => exact isPure_complete e hp h
   | false =>
-    cases h' : isPure e with
+    cases h' : isPure false e with
     | false => rfl
-    | true => rw [isPure_sound e h'] at h; exact absurd h (by simp)
+    | true => rw [isPure_sound false e h'] at h; exact absurd h (by simp)
 
-theorem constSlice_call (fn : Ex) (args : List Ex) (fbs : Bool) :
-    isConstantSlice (.call fn args fbs) = SpecC02.constSlice (.call fn args fbs) := by
+theorem constSlice_call (fixed : Bool) (fn : Ex) (args : List Ex) (fbs : Bool) :
+    isConstantSlice fixed (.call fn args fbs) = SpecC02.constSlice (.call fn args fbs) := by
   cases args with
   | nil => simp [isConstantSlice, SpecC02.constSlice]
   | cons a rest =>
@@ -186,17 +197,22 @@ theorem constSlice_call (fn : Ex) (args : List Ex) (fbs : Bool) :
       cases a <;> simp [isConstantSlice, SpecC02.constSlice]
       rename_i b; cases b <;> simp
 
-/-- every documented constant slice is accepted … -/
-theorem constSlice_complete (e : Ex) (h : SpecC02.constSlice e = true) : isConstantSlice e = true := by
+/-- every documented constant slice is accepted (before and after the repair) … -/
+theorem constSlice_complete (fixed : Bool) (e : Ex) (h : SpecC02.constSlice e = true) : isConstantSlice fixed e = true := by
   cases e with
   | call fn args fbs => rw [constSlice_call]; exact h
   | composite elts cs sl => simp_all [SpecC02.constSlice, isConstantSlice]
   | _ => simp [SpecC02.constSlice] at h
 
-/-- … and, among composite literals of slice or array type and calls, nothing else. -/
+/-- … and after the repair nothing else: `ConstSlice` is exactly "a slice or array literal of constants, or
+`[]byte("literal")`", for every expression. -/
+theorem constSlice_eq_spec (e : Ex) : isConstantSlice true e = SpecC02.constSlice e := by
+  cases e <;> (try exact constSlice_call _ _ _ _) <;> simp [SpecC02.constSlice, isConstantSlice]
+
+/-- The code as it stood: only among composite literals of slice or array type, and calls. -/
 theorem constSlice_eq_spec_partial (e : Ex)
-    (h : ∀ elts cs sl, e = .composite elts cs sl → sl = true) : isConstantSlice e = SpecC02.constSlice e := by
-  cases e <;> (try exact constSlice_call _ _ _) <;> simp_all [SpecC02.constSlice, isConstantSlice]
+    (h : ∀ elts cs sl, e = .composite elts cs sl → sl = true) : isConstantSlice false e = SpecC02.constSlice e := by
+  cases e <;> (try exact constSlice_call _ _ _ _) <;> simp_all [SpecC02.constSlice, isConstantSlice]
 
 /-! ## Object.Is / IsGlobal / IsVariadicParam -/
 
@@ -229,11 +245,31 @@ theorem isGlobal_eq_spec_partial (e : Option Ex) (h : (SpecC02.objectOf e).isSom
   | none => simp [ho] at h
   | some o => rfl
 
-/-- `IsVariadicParam` is the documented fact whenever the variadic parameters in sight are those of the
-enclosing function declaration (not of a function literal). -/
+/-- go/types scoping, as far as `IsVariadicParam` relies on it: an identifier that denotes the `...T`
+parameter of a function lies inside that function — which is the enclosing declaration, or a function
+literal on the node path of the match.  (A contract of the facts the harness supplies, checked on every
+probe site; not a property of ruleguard's code.) -/
+def ScopeOK (cf : CurFunc) (e : Option Ex) : Prop :=
+  ∀ o, SpecC02.objectOf e = some o →
+    o.variadicParam = ((decide (cf = .decl true) && o.lastParamOfDecl) || o.variadicOfLit)
+
+/-- After the repair `IsVariadicParam` is the documented fact: the object is the variadic parameter of a
+function, declared or literal. -/
+theorem isVariadic_eq_spec (cf : CurFunc) (e : Option Ex) (h : ScopeOK cf e) :
+    objectIsVariadicParam true cf e = SpecC02.objectIsVariadicParam e := by
+  unfold objectIsVariadicParam SpecC02.objectIsVariadicParam
+  rw [objOf_eq]
+  cases ho : SpecC02.objectOf e with
+  | none => simp
+  | some o =>
+    have := h o ho
+    cases cf <;> simp_all <;> (rename_i v; cases v <;> simp_all)
+
+/-- The code as it stood: only whenever the variadic parameters in sight are those of the enclosing function
+declaration (not of a function literal). -/
 theorem isVariadic_eq_spec_partial (cf : CurFunc) (e : Option Ex)
     (h : ∀ o, SpecC02.objectOf e = some o → o.variadicParam = (decide (cf = .decl true) && o.lastParamOfDecl)) :
-    objectIsVariadicParam cf e = SpecC02.objectIsVariadicParam e := by
+    objectIsVariadicParam false cf e = SpecC02.objectIsVariadicParam e := by
   unfold objectIsVariadicParam SpecC02.objectIsVariadicParam
   rw [objOf_eq]
   cases ho : SpecC02.objectOf e with
@@ -259,7 +295,7 @@ theorem nodeIs_eq_spec (n : Option NodeF) (tag : String) : nodeIs n tag = SpecC0
         cases n <;> simp
       · cases n with
         | none => simp [h1, h2, h3]
-        | some f => simp only [h1, h2, h3]; simp [eq_comm, BEq.comm]
+        | some f => simp only [h1, h2, h3]; simp [BEq.comm]
 
 /-! ## GoVersion -/
 
@@ -296,66 +332,275 @@ theorem version_ops_consistent (x y : GoVersion) :
 
 /-! ## delegated relations and `$*xs` -/
 
-/-- the predicates that read `subExpr` are "the relation holds for the captured expression's type, for
-every element of a list capture" … -/
-theorem rel_eq_spec (r : Rel) (o : Oracle)
-    (hr : r = .convertibleTo ∨ r = .assignableTo ∨ r = .implements ∨ r = .addressable ∨ r = .const) :
-    relFilter r o = SpecC02.relHolds o := by
-  rcases hr with rfl | rfl | rfl | rfl | rfl <;> simp [relFilter, SpecC02.relHolds, allElems] <;> rfl
+/-- After the repair (`typeofNode` looks through expression statements) every list-aware delegating predicate
+is "the relation holds for the captured expression's type, for every element of a list capture" —
+whichever accessor it reads. -/
+theorem rel_eq_spec (r : Rel) (o : Oracle) (hr : r ≠ .hasMethod ∧ r ≠ .identicalTo) :
+    relFilter true r o = SpecC02.relHolds o := by
+  cases r <;> simp_all [relFilter, SpecC02.relHolds, allElems, Oracle.onNode] <;> rfl
 
-/-- … those that read `subNode` agree when the capture is an expression (the two accessors coincide);
-`HasMethod` / `IdenticalTo` in addition ignore expression lists. -/
-theorem rel_eq_spec_partial (r : Rel) (o : Oracle) (h : o.onSubNode = o.onSubExpr)
+/-- The code as it stood (`stmt = false`): the predicates that read `subNode` agree only when the capture is
+an expression (the two accessors coincide).  Before and after: `HasMethod` / `IdenticalTo` ignore
+expression lists. -/
+theorem rel_eq_spec_partial (stmt : Bool) (r : Rel) (o : Oracle) (h : stmt = false → o.onSubNode = o.onSubExpr)
     (hl : (r = .hasMethod ∨ r = .identicalTo) → o.onElems = none) :
-    relFilter r o = SpecC02.relHolds o := by
-  cases r <;> simp_all [relFilter, SpecC02.relHolds, allElems] <;> rfl
+    relFilter stmt r o = SpecC02.relHolds o := by
+  cases stmt <;> cases r <;> simp_all [relFilter, SpecC02.relHolds, allElems, Oracle.onNode] <;> rfl
 
 /-- list captures: the list-aware expression predicates are the conjunction over the elements -/
 theorem exprList_forall (p : Option Ex → Bool) (es : List Ex) :
     exprFilter p (.list es) = es.all (fun e => p (some e)) := rfl
 
-theorem pure_cap_sound (c : ExCap) (h : exprFilter pureOpt c = true) : SpecC02.onCap SpecC02.pureOpt c = true := by
+/-- list captures, after the repair: so are the type predicates (`OfKind`, `HasPointers`) … -/
+theorem tyList_forall (p : Ty → Bool) (ts : List Ty) : tyFilter true p (.list ts) = ts.all p := rfl
+
+/-- … and the object predicates that had no list case (`IsGlobal`, `IsVariadicParam`), for every list -/
+theorem exprListV_forall (p : Option Ex → Bool) (es : List Ex) :
+    exprFilterV true (fun e => .ok (p e)) (.list es) = .ok (es.all fun e => p (some e)) :=
+  allRes_ok _ es
+
+theorem pure_cap_sound (ext : Bool) (c : ExCap) (h : exprFilter (pureOpt ext) c = true) :
+    SpecC02.onCap SpecC02.pureOpt c = true := by
   cases c with
-  | one e => cases e <;> simp_all [exprFilter, SpecC02.onCap, pureOpt, SpecC02.pureOpt]; exact isPure_sound _ h
+  | one e => cases e <;> simp_all [exprFilter, SpecC02.onCap, pureOpt, SpecC02.pureOpt]; exact isPure_sound ext _ h
   | list es =>
     simp only [exprFilter, SpecC02.onCap, List.all_eq_true] at *
     intro e he
-    exact isPure_sound e (h e he)
+    exact isPure_sound ext e (h e he)
+
+/-! ## whole captures (single nodes and `$*xs` lists), after the repairs -/
+
+theorem onCap_congr (p q : Option Ex → Bool) (h : ∀ e, p e = q e) (c : ExCap) :
+    exprFilter p c = SpecC02.onCap q c := by
+  cases c with
+  | one e => exact h e
+  | list es =>
+    simp only [exprFilter, SpecC02.onCap]
+    simp only [h]
+
+theorem onTyCap_congr (p q : Ty → Bool) (h : ∀ t, p t = q t) (c : TyCap) :
+    tyFilter true p c = SpecC02.onTyCap q c := by
+  cases c with
+  | one t => exact h t
+  | list ts =>
+    simp only [tyFilter, SpecC02.onTyCap, if_true]
+    induction ts with
+    | nil => rfl
+    | cons a as ih => simp only [List.all_cons, h]; rw [ih]
+
+/-- `Pure` on a capture: every element is side-effect-free -/
+theorem pure_cap_eq_spec (c : ExCap) : exprFilter (pureOpt true) c = SpecC02.onCap SpecC02.pureOpt c :=
+  onCap_congr _ _ (fun e => by cases e <;> simp [pureOpt, SpecC02.pureOpt, isPure_ext_eq]) c
+
+/-- `ConstSlice` on a capture -/
+theorem constSlice_cap_eq_spec (c : ExCap) :
+    exprFilter (constSliceOpt true) c = SpecC02.onCap SpecC02.constSliceOpt c :=
+  onCap_congr _ _ (fun e => by cases e <;> simp [constSliceOpt, SpecC02.constSliceOpt, constSlice_eq_spec]) c
+
+/-- `Object.Is` on a capture -/
+theorem objectIs_cap_eq_spec (k : ObjKind) (c : ExCap) :
+    exprFilter (objectIs k) c = SpecC02.onCap (SpecC02.objectIs k) c :=
+  onCap_congr _ _ (objectIs_eq_spec k) c
+
+/-- `Type.HasPointers` on a capture: the layout of every element's type contains a pointer word -/
+theorem hasPointers_cap_eq_spec (c : TyCap) :
+    tyFilter true (typeHasPointers true) c = SpecC02.onTyCap SpecC02.containsPointer c :=
+  onTyCap_congr _ _ hasPointers_eq_spec c
+
+theorem mapM_some {α β : Type} (f : α → β) : ∀ l : List α, l.mapM (fun a => some (f a)) = some (l.map f)
+  | [] => rfl
+  | a :: as => by simp [List.mapM_cons, mapM_some f as]
+
+/-- `Type.OfKind` / `Type.Underlying().OfKind` on a capture: the documented fact holds of every element's type -/
+theorem ofKind_cap_eq_spec (u : Bool) (kind : String) (f : Ty → Bool) (c : TyCap)
+    (h : PR.ofKind true u kind = some f) : SpecC02.ofKindCap u kind c = some (tyFilter true f c) := by
+  cases c with
+  | one t => exact ofKind_eq_spec u kind f t h
+  | list ts =>
+    have hf : SpecC02.ofKind u kind = fun t => some (f t) := funext fun t => ofKind_eq_spec u kind f t h
+    simp only [SpecC02.ofKindCap, tyFilter, hf, mapM_some, Option.map_some, if_true]
+    congr 1
+    induction ts with
+    | nil => rfl
+    | cons a as ih => simp only [List.map_cons, List.all_cons, ih, id]
+
+/-- `Object.IsGlobal` on a capture: never panics, and every element is declared in the package scope -/
+theorem isGlobal_cap_eq_spec (c : ExCap) :
+    exprFilterV true (objectIsGlobal true) c = .ok (SpecC02.onCap SpecC02.objectIsGlobal c) := by
+  have hp : objectIsGlobal true = fun e => .ok (SpecC02.objectIsGlobal e) := funext isGlobal_eq_spec
+  cases c with
+  | one e => exact isGlobal_eq_spec e
+  | list es => rw [hp]; exact allRes_ok _ es
+
+def ScopeOKCap (cf : CurFunc) : ExCap → Prop
+  | .one e => ScopeOK cf e
+  | .list es => ∀ e ∈ es, ScopeOK cf (some e)
+
+/-- `Object.IsVariadicParam` on a capture: every element is the variadic parameter of a function -/
+theorem isVariadic_cap_eq_spec (cf : CurFunc) (c : ExCap) (h : ScopeOKCap cf c) :
+    exprFilterV true (fun e => .ok (objectIsVariadicParam true cf e)) c =
+      .ok (SpecC02.onCap SpecC02.objectIsVariadicParam c) := by
+  cases c with
+  | one e => simp only [exprFilterV, SpecC02.onCap]; rw [isVariadic_eq_spec cf e h]
+  | list es =>
+    simp only [exprFilterV, SpecC02.onCap, if_true]
+    rw [allRes_ok]
+    congr 1
+    induction es with
+    | nil => rfl
+    | cons a as ih =>
+      simp only [List.all_cons]
+      rw [isVariadic_eq_spec cf (some a) (h a (List.mem_cons_self ..)), ih (fun e he => h e (List.mem_cons_of_mem _ he))]
+
+/-! ## the dispatch: every predicate, every site -/
+
+/-- **After the repairs, every modelled predicate the loader accepts gives, at every site (single capture or
+`$*xs` list, expression or statement), exactly the verdict the property prescribes, and never panics.**
+Hypotheses left: the go/types scoping contract for `IsVariadicParam` (`ScopeOKCap`), and that
+`HasMethod` / `IdenticalTo` (which have no list case) are not asked about an expression list. -/
+theorem pred_eq_spec (p : Pred) (f : Site → Option (Res Bool)) (s : Site)
+    (h : evalPred .repaired p = some f)
+    (hv : p = .isVariadic → ScopeOKCap s.cf s.ex)
+    (hr : ∀ r o, p = .rel r → (r = .hasMethod ∨ r = .identicalTo) → s.oracle = some o → o.onElems = none) :
+    f s = (SpecC02.specPred p s).map .ok := by
+  cases p with
+  | ofKind u kind =>
+    simp only [evalPred, Variant.repaired] at h
+    cases hk : PR.ofKind true u kind with
+    | none => simp [hk] at h
+    | some g =>
+      simp only [hk, Option.some.injEq] at h
+      subst h
+      simp [SpecC02.specPred, ofKind_cap_eq_spec u kind g s.ty hk]
+  | hasPointers =>
+    simp only [evalPred, Variant.repaired, Option.some.injEq] at h; subst h
+    simp [SpecC02.specPred, hasPointers_cap_eq_spec]
+  | pure =>
+    simp only [evalPred, Variant.repaired, Option.some.injEq] at h; subst h
+    simp [SpecC02.specPred, pure_cap_eq_spec]
+  | constSlice =>
+    simp only [evalPred, Variant.repaired, Option.some.injEq] at h; subst h
+    simp [SpecC02.specPred, constSlice_cap_eq_spec]
+  | objectIs name =>
+    simp only [evalPred] at h
+    cases hk : objKindOfString name with
+    | none => simp [hk] at h
+    | some k =>
+      simp only [hk, Option.some.injEq] at h; subst h
+      simp [SpecC02.specPred, hk, objectIs_cap_eq_spec]
+  | isGlobal =>
+    simp only [evalPred, Variant.repaired, Option.some.injEq] at h; subst h
+    simp [SpecC02.specPred, isGlobal_cap_eq_spec]
+  | isVariadic =>
+    simp only [evalPred, Variant.repaired, Option.some.injEq] at h; subst h
+    simp [SpecC02.specPred, isVariadic_cap_eq_spec s.cf s.ex (hv rfl)]
+  | nodeIs known tag =>
+    cases known <;> simp only [evalPred, Option.some.injEq, if_true] at h
+    · exact absurd h (by simp)
+    · subst h; simp [SpecC02.specPred, nodeIs_eq_spec]
+  | parentIs known tag =>
+    cases known <;> simp only [evalPred, Option.some.injEq, if_true] at h
+    · exact absurd h (by simp)
+    · subst h; simp [SpecC02.specPred, nodeIs_eq_spec]
+  | rel r =>
+    simp only [evalPred, Variant.repaired, Option.some.injEq] at h; subst h
+    simp only [SpecC02.specPred]
+    cases ho : s.oracle with
+    | none => rfl
+    | some o =>
+      simp only [Option.map_some]
+      by_cases hm : r = .hasMethod ∨ r = .identicalTo
+      · rw [rel_eq_spec_partial true r o (by simp) (fun _ => hr r o rfl hm ho)]
+      · rw [rel_eq_spec r o ⟨fun e => hm (Or.inl e), fun e => hm (Or.inr e)⟩]
 
 /-! ## non-vacuity and kernel-checked counterexamples -/
 
 def tInt8 : Ty := .basic 3 2
 def tUint8 : Ty := .basic 8 6
+def tString : Ty := .basic 17 32
 def tUntypedNil : Ty := .basic 25 64
 def tAlias8 : Ty := .alias tInt8
-def objVar (g lp vp : Bool) : Obj := ⟨.var, g, lp, vp⟩
+def objVar (g lp vp vl : Bool) : Obj := ⟨.var, g, lp, vp, vl⟩
+def idVar (g lp vp vl : Bool) : Ex := .ident (some (objVar g lp vp vl))
+def tyName : Ex := .ident (some ⟨.typeName, true, false, false, false⟩)
+/-- a site: a single captured expression `e` of type `t`, inside a non-variadic declaration -/
+def site1 (e : Ex) (t : Ty) (o : Option Oracle) : Site :=
+  { ex := .one (some e), ty := .one t, node := some ⟨"Ident", true, false⟩, parent := some ⟨"CallExpr", true, false⟩, cf := .decl false, oracle := o }
+/-- a site: a `$*xs` capture -/
+def siteN (es : List Ex) (ts : List Ty) (o : Option Oracle) : Site :=
+  { ex := .list es, ty := .list ts, node := some ⟨"NodeSlice", false, false⟩, parent := some ⟨"ExprStmt", false, true⟩, cf := .decl false, oracle := o }
 
 example : ∃ f, PR.ofKind true false "untyped" = some f ∧ f tUntypedNil = true ∧ f tUint8 = false := ⟨_, rfl, by decide, by decide⟩
 example : noAlias (.named (.strct [tInt8, .array tUint8])) = true := by decide
-example : plain (.binary (.ident none) (.call (.ident (some ⟨.typeName, true, false, false⟩)) [.basicLit false] false)) = true := by decide
--- D7: the code as it stands maps "untyped" to the unsigned bit: it accepts uint8 and rejects untyped nil
+example : plain (.binary (.ident none) (.call tyName [.basicLit false] false)) = true := by decide
+-- D7: the pinned code maps "untyped" to the unsigned bit: it accepts uint8 and rejects untyped nil
 example : ∃ f, PR.ofKind false false "untyped" = some f ∧ f tUint8 = true ∧ f tUntypedNil = false ∧
     SpecC02.ofKind false "untyped" tUint8 = some false ∧ SpecC02.ofKind false "untyped" tUntypedNil = some true :=
   ⟨_, rfl, by decide, by decide, by decide, by decide⟩
--- alias nodes (gotypesalias=1): `type A = int8` is not "integer" and "has pointers" for the code as it stands
+-- alias nodes (gotypesalias=1): `type A = int8` is not "integer" and "has pointers" for the pinned code
 example : ∃ f, PR.ofKind false false "integer" = some f ∧ f tAlias8 = false ∧ SpecC02.ofKind false "integer" tAlias8 = some true :=
   ⟨_, rfl, by decide, by decide⟩
 example : typeHasPointers false tAlias8 = true ∧ SpecC02.containsPointer tAlias8 = false := by decide
 example : typeHasPointers true tAlias8 = false := by decide
 -- D8: IsGlobal on a capture that is not an identifier
-example : objectIsGlobal false (some (.binary (.ident (some (objVar true false false))) (.basicLit false))) = .panic .nilDeref := by decide
-example : objectIsGlobal true (some (.binary (.ident (some (objVar true false false))) (.basicLit false))) = .ok false := by decide
-example : objectIsGlobal false (some (.paren (.ident (some (objVar true false false))))) = .ok true := by decide
--- IsVariadicParam: the `...T` parameter of a function literal inside a non-variadic declaration
-example : objectIsVariadicParam (.decl false) (some (.ident (some (objVar false false true)))) = false ∧
-    SpecC02.objectIsVariadicParam (some (.ident (some (objVar false false true)))) = true := by decide
--- Pure is conservative on node kinds outside its whitelist: S{a: 1}, s[1:2], x.(T)
-example : isPure (.composite [.keyValue (.ident none) (.basicLit false)] [false] false) = false ∧
+example : objectIsGlobal false (some (.binary (idVar true false false false) (.basicLit false))) = .panic .nilDeref := by decide
+example : objectIsGlobal true (some (.binary (idVar true false false false) (.basicLit false))) = .ok false := by decide
+example : objectIsGlobal false (some (.paren (idVar true false false false))) = .ok true := by decide
+-- IsVariadicParam: the `...T` parameter of a function literal inside a non-variadic declaration; before / after
+example : objectIsVariadicParam false (.decl false) (some (idVar false false true true)) = false ∧
+    SpecC02.objectIsVariadicParam (some (idVar false false true true)) = true := by decide
+example : objectIsVariadicParam true (.decl false) (some (idVar false false true true)) = true := by decide
+example : ScopeOK (.decl false) (some (idVar false false true true)) := by
+  intro o ho; cases ho; decide
+example : ScopeOK (.decl true) (some (.paren (idVar false true true false))) := by
+  intro o ho; cases ho; decide
+-- … a closure's own slice parameter that shadows nothing variadic stays `false`
+example : objectIsVariadicParam true (.decl true) (some (idVar false false false false)) = false := by decide
+-- Pure was conservative on node kinds outside its whitelist: S{a: 1}, s[1:2], x.(T), f[[]int]; before / after
+example : isPure false (.composite [.keyValue (.ident none) (.basicLit false)] [false] false) = false ∧
     SpecC02.pure (.composite [.keyValue (.ident none) (.basicLit false)] [false] false) = true := by decide
-example : isPure (.slice (.ident none) [.basicLit false]) = false ∧ SpecC02.pure (.slice (.ident none) [.basicLit false]) = true := by decide
--- ConstSlice accepts a struct literal of constants
-example : isConstantSlice (.composite [.basicLit false, .basicLit false] [true, true] false) = true ∧
+example : isPure false (.slice (.ident none) [.basicLit false]) = false ∧ SpecC02.pure (.slice (.ident none) [.basicLit false]) = true := by decide
+example : isPure false (.typeAssert (.ident none)) = false ∧ isPure false (.index (.ident none) .typeLit) = false := by decide
+example : isPure true (.composite [.keyValue (.ident none) (.basicLit false)] [false] false) = true ∧
+    isPure true (.slice (.ident none) [.basicLit false]) = true ∧ isPure true (.typeAssert (.ident none)) = true ∧
+    isPure true (.index (.ident none) .typeLit) = true := by decide
+-- … and still rejects what has an effect: s[f():], <-ch, f(x)
+example : isPure true (.slice (.ident none) [.call (.ident none) [] false]) = false ∧ isPure true (.unary true (.ident none)) = false ∧
+    isPure true (.keyValue (.ident none) (.call (.ident none) [.basicLit false] false)) = false := by decide
+-- ConstSlice accepted a struct literal of constants; before / after
+example : isConstantSlice false (.composite [.basicLit false, .basicLit false] [true, true] false) = true ∧
     SpecC02.constSlice (.composite [.basicLit false, .basicLit false] [true, true] false) = false := by decide
+example : isConstantSlice true (.composite [.basicLit false, .basicLit false] [true, true] false) = false ∧
+    isConstantSlice true (.composite [.basicLit false, .basicLit false] [true, true] true) = true ∧
+    isConstantSlice true (.call (.typeLit) [.basicLit true] true) = true := by decide
+-- `$*xs`: the pinned code read the list as a nil expression (invalid type, no object); before / after
+example : tyFilter false (typeHasPointers true) (.list [tString]) = false ∧ SpecC02.onTyCap SpecC02.containsPointer (.list [tString]) = true := by decide
+example : tyFilter true (typeHasPointers true) (.list [tInt8]) = false ∧ tyFilter true (typeHasPointers true) (.list [tInt8, tString]) = false ∧
+    tyFilter true (typeHasPointers true) (.list [tString, tString]) = true ∧ tyFilter true (typeHasPointers true) (.list []) = true := by decide
+example : ∃ f, PR.ofKind true false "integer" = some f ∧ tyFilter false f (.list [tInt8]) = false ∧ tyFilter true f (.list [tInt8]) = true ∧
+    tyFilter true f (.list [tInt8, tString]) = false ∧ SpecC02.ofKindCap false "integer" (.list [tInt8]) = some true :=
+  ⟨_, rfl, by decide, by decide, by decide, by decide⟩
+example : exprFilterV false (objectIsGlobal true) (.list [idVar true false false false]) = .ok false ∧
+    exprFilterV true (objectIsGlobal true) (.list [idVar true false false false]) = .ok true ∧
+    exprFilterV true (objectIsGlobal true) (.list [idVar true false false false, .basicLit false]) = .ok false ∧
+    SpecC02.onCap SpecC02.objectIsGlobal (.list [idVar true false false false]) = true := by decide
+-- a list element on which the pinned IsGlobal panicked ends the list walk with that panic
+example : exprFilterV true (objectIsGlobal false) (.list [idVar true false false false, .basicLit false, idVar true false false false]) = .panic .nilDeref := by decide
+-- statement captures: `if mark { fn(gi) }`, Type.Is("int"): the relation holds of the call's type, the statement itself had none
+example : relFilter false .typeIs ⟨false, true, none⟩ = false ∧ SpecC02.relHolds ⟨false, true, none⟩ = true ∧
+    relFilter true .typeIs ⟨false, true, none⟩ = true ∧ relFilter true .comparable ⟨false, true, none⟩ = true := by decide
+-- the dispatch: what the repaired loader/filters answer on concrete sites
+example : ∃ f, evalPred .repaired (.ofKind false "integer") = some f ∧
+    f (siteN [idVar true false false false] [tInt8] none) = some (.ok true) ∧
+    f (site1 (idVar true false false false) tString none) = some (.ok false) := ⟨_, rfl, by decide, by decide⟩
+example : evalPred .repaired (.ofKind false "nonsense") = none ∧ evalPred .repaired (.objectIs "Bogus") = none ∧
+    evalPred .repaired (.nodeIs false "Bogus") = none ∧ (evalPred .repaired (.objectIs "Var")).isSome = true := by decide
+example : ∃ f, evalPred .repaired (.rel .typeIs) = some f ∧ f (site1 (.basicLit false) tInt8 (some ⟨false, true, none⟩)) = some (.ok true) ∧
+    f (site1 (.basicLit false) tInt8 none) = none := ⟨_, rfl, by decide, by decide⟩
+example : ScopeOKCap (.decl false) (.list [idVar false false true true, .basicLit false]) := by
+  intro e he
+  simp only [List.mem_cons, List.mem_nil_iff, or_false] at he
+  rcases he with rfl | rfl <;> (intro o ho; cases ho) ; decide
 -- versions
 example : parseGoVersion [49, 46, 49, 54] = some ⟨1, 16⟩ ∧ parseGoVersion [49] = none ∧ parseGoVersion [] = some ⟨0, 0⟩ ∧
     parseGoVersion [49, 46, 120] = none := by decide
